@@ -56,6 +56,34 @@ def fragments(ctx):
         near = C.chain_lines("4DFR", "A", 20, 12)
         out.append(("two-ligand-copies", near + [C.TER] + mtx_a + C.rename_chain(mtx_b, "B", "A")))
     out.append(("frag-1HPX-A0+40", C.chain_lines("1HPX", "A", 0, 40) + [C.TER]))
+    # a free cysteine hydrogen-bonded to a lysine of another chain (NZ 3.1 A from SG, pointing away from the cysteine's
+    # own fragment): listing the lysine only, the cysteine still has to act as its partner
+    from .. import pdbio
+    cf = C.chain_lines("1FTJ-Chain-A", "A", 30, 6)
+    sg = [pdbio.parse_line(ln) for ln in cf if C.is_atom(ln) and ln[17:20] == "CYS" and ln[12:16].strip() == "SG"]
+    kf = C.rename_chain(C.chain_lines("1HPX", "A", 40, 8), "A", "K")
+    if sg:
+        cx, cy, cz = C.centroid(cf)
+        v = [sg[0].x - cx, sg[0].y - cy, sg[0].z - cz]
+        n = max(1.0, sum(x * x for x in v) ** 0.5)
+        for tipl in [pdbio.parse_line(ln) for ln in kf if C.is_atom(ln) and ln[17:20] == "LYS" and ln[12:16].strip() == "NZ"]:
+            kx, ky, kz = C.centroid(kf)
+            best = None
+            dirs = [[v[0] / n, v[1] / n, v[2] / n], [1, 0, 0], [-1, 0, 0], [0, 1, 0], [0, -1, 0], [0, 0, 1], [0, 0, -1]]
+            for u in dirs:
+                tgt = [sg[0].x + 3100 * u[0], sg[0].y + 3100 * u[1], sg[0].z + 3100 * u[2]]
+                t = [int(tgt[0] - tipl.x), int(tgt[1] - tipl.y), int(tgt[2] - tipl.z)]
+                moved = C.translate(kf, *t)
+                pa = [pdbio.parse_line(x) for x in cf if C.is_atom(x)]
+                pb = [pdbio.parse_line(x) for x in moved if C.is_atom(x)]
+                dmin = min((a_.x - b_.x) ** 2 + (a_.y - b_.y) ** 2 + (a_.z - b_.z) ** 2 for a_ in pa for b_ in pb
+                           if not (a_.name.strip() == "SG" and b_.name.strip() == "NZ"))
+                if dmin >= 2300 ** 2:
+                    best = moved
+                    break
+            if best:
+                out.append(("free-CYS+LYS-hbonded", cf + [C.TER] + best + [C.TER]))
+                break
     # alternate locations: later conformations are completed with copies of atoms of the first one
     alt = a
     for r_ in [r for r in ids if any(C.resid(ln) == r and ln[17:20] in ("ASP", "GLU", "LYS", "ARG", "HIS", "TYR") for ln in a)][:2]:
